@@ -4,15 +4,20 @@
    What is modelled, as written in /repo/src/aioftp (facts regenerated in Gen/Timeouts.v):
    * with_timeout(name) = asyncio.wait_for(coro, getattr(self, name)): deadline = start of the await + T;
      T = None: no deadline; T <= 0: TimeoutError at once (wait_for cancels a not-yet-done awaitable);
-   * StreamIO.__init__: read_timeout = read_timeout or timeout, write_timeout = write_timeout or timeout
-     (Python `or`: a falsy left operand -- None or 0 -- yields the right operand);
+   * StreamIO.__init__: read_timeout = timeout if read_timeout is None else read_timeout, likewise write_timeout
+     ([EDflt]: only None falls back to `timeout`, 0 is zero seconds).  The shape before the F16 repair,
+     `read_timeout or timeout` (Python `or`: a falsy left operand -- None or 0 -- yields the right operand), is
+     still expressible ([EOr]) so that a source that goes back to it is translated to a DIFFERENT wiring and the
+     obligation `gen_wiring = Some std_wiring` of Props/C16.v becomes false;
    * control stream: read_timeout=idle_timeout, write_timeout=socket_timeout; data streams: timeout=socket_timeout;
    * a new parse_command task (=> a new timed readline) is started each time a command line has been consumed;
      the idle timer of that read starts when the read starts, i.e. after the read-throttle wait [d] of the line;
    * ConnectionConditions(data_connection_made, wait=True): wait_for(shield(..), wait_future_timeout) started when
      the transfer command is dispatched; on TimeoutError: reply fail_code (425) and `return True` (session continues);
    * a TimeoutError in parse_command / a worker's data I/O / response_writer is an exception for the dispatcher:
-     `except Exception: log` then the finally block = the session ends at that instant.
+     `except Exception: log` then the finally block = the session ends at that instant;
+   * the greeting is the first reply write, entered at the session's start t0: [run] begins with it, so a control
+     write timeout <= 0 ends the session at t0 (wait_for(.., 0) never lets the write start).
    Ties: a deadline that coincides with a peer event fires first; a 425 deadline that coincides with a
    session-ending deadline is resolved in favour of the session end (asyncio's order is a race there). *)
 From Coq Require Import QArith ZArith List Bool String.
@@ -27,7 +32,8 @@ Inductive texpr : Type :=
 | EIdle | ESocket | EWaitFuture          (* the three attributes of the Server *)
 | ENone                                  (* keyword not given: default None *)
 | EConst (q : Q)
-| EOr (a b : texpr).                     (* Python `a or b` *)
+| EOr (a b : texpr)                      (* Python `a or b`: a falsy a (None, 0) yields b *)
+| EDflt (a b : texpr).                   (* Python `b if a is None else a`: only a = None yields b *)
 
 Definition qle (a b : Q) : bool := Qle_bool a b.
 Definition qlt (a b : Q) : bool := negb (Qle_bool b a).
@@ -43,6 +49,7 @@ Fixpoint eval (c : config) (e : texpr) : option Q :=
   | ENone => None
   | EConst q => Some q
   | EOr a b => if truthy (eval c a) then eval c a else eval c b
+  | EDflt a b => match eval c a with Some q => Some q | None => eval c b end
   end.
 
 (* asyncio.wait_for(aw, T) entered at [start] with aw not done *)
@@ -63,10 +70,10 @@ Record wiring := {
 
 (* the wiring of the current source (Props/C16.v re-derives it from Gen/Timeouts.v on every run) *)
 Definition std_wiring : wiring :=
-  {| w_ctrl_read := EOr EIdle ENone;
-     w_ctrl_write := EOr ESocket ENone;
-     w_data_read := EOr ENone ESocket;
-     w_data_write := EOr ENone ESocket;
+  {| w_ctrl_read := EDflt EIdle ENone;
+     w_ctrl_write := EDflt ESocket ENone;
+     w_data_read := EDflt ENone ESocket;
+     w_data_write := EDflt ENone ESocket;
      w_wait := EWaitFuture;
      w_wait_continues := true |}.
 
@@ -239,8 +246,14 @@ Definition run_events (w : wiring) (c : config) (s : state) (evs : list event) :
 (* the peer stalls: no more events, time runs on *)
 Definition finish (w : wiring) (c : config) (s : state) : state := advance w c None s.
 
+(* the greeting: a reply write entered at t0 that the peer lets through at once *)
+Definition greeting (t0 : Q) : list event := [CtrlBlocks t0; CtrlUnblocks t0].
+
+Definition start (w : wiring) (c : config) (t0 : Q) : state :=
+  run_events w c (init t0) (greeting t0).
+
 Definition run (w : wiring) (c : config) (t0 : Q) (evs : list event) : state :=
-  finish w c (run_events w c (init t0) evs).
+  finish w c (run_events w c (start w c t0) evs).
 
 (* ---- the wiring as a function of the regenerated source facts (strings) ---- *)
 Open Scope string_scope.
@@ -277,18 +290,25 @@ Definition param_expr (conn_kw defaults kws : list (string * string)) (p : strin
   | None => match assoc p defaults with Some v => attr_expr v | None => None end
   end.
 
-(* attribute [a] of the stream built at a site: self.a = P1 or P2 *)
+(* attribute [a] of the stream built at a site: self.a = <P1 with fallback P2>, combined as the source does
+   (fact `semantics`: "or" = `P1 or P2`, "is-none" = `P2 if P1 is None else P1`, "name" = plain `P1`) *)
+Definition combine (sem : string) (e1 e2 : texpr) : option texpr :=
+  if String.eqb sem "or" then Some (EOr e1 e2)
+  else if String.eqb sem "is-none" then Some (EDflt e1 e2)
+  else if String.eqb sem "name" then Some e1
+  else None.
+
 Definition stream_attr (conn_kw defaults : list (string * string))
-           (init : list (string * (string * string))) (kws : list (string * string)) (a : string)
+           (init : list (string * (string * (string * string)))) (kws : list (string * string)) (a : string)
   : option texpr :=
-  match (fix find (l : list (string * (string * string))) :=
+  match (fix find (l : list (string * (string * (string * string)))) :=
            match l with
            | [] => None
            | (k, v) :: r => if String.eqb k a then Some v else find r
            end) init with
-  | Some (p1, p2) =>
+  | Some (sem, (p1, p2)) =>
       match param_expr conn_kw defaults kws p1, param_expr conn_kw defaults kws p2 with
-      | Some e1, Some e2 => Some (if String.eqb p1 p2 then e1 else EOr e1 e2)
+      | Some e1, Some e2 => combine sem e1 e2
       | _, _ => None
       end
   | None => None
@@ -363,7 +383,8 @@ Definition run_timeouts (fn : Z) (a : sx) : sx :=
       sx_of_state (run std_wiring (config_of_sx (nth_sx 0 a)) (q_of_sx (nth_sx 1 a))
                        (map event_of_sx (list_of_sx (nth_sx 2 a))))
   | 1%Z => (* state right after the last event, before the stall plays out *)
-      sx_of_state (run_events std_wiring (config_of_sx (nth_sx 0 a)) (init (q_of_sx (nth_sx 1 a)))
+      sx_of_state (let c := config_of_sx (nth_sx 0 a) in
+                   run_events std_wiring c (start std_wiring c (q_of_sx (nth_sx 1 a)))
                               (map event_of_sx (list_of_sx (nth_sx 2 a))))
   | 2%Z => (* effective timeouts of the streams for a configuration *)
       let c := config_of_sx (nth_sx 0 a) in
